@@ -29,6 +29,14 @@ type c20Finding struct {
 	Ref   string `json:"ref"`
 	Title string `json:"title"`
 	Sev   int    `json:"sev"` // 0 = nil severity
+	// V2 / V3: the optional CVSS blocks of the severity (0 absent, 1 and 2 two different blocks);
+	// Desc / Rec / Type: the other advisory fields. Two advisories are equal in content iff all
+	// of these agree.
+	V2    int    `json:"v2,omitempty"`
+	V3    int    `json:"v3,omitempty"`
+	Desc  string `json:"desc,omitempty"`
+	Rec   string `json:"rec,omitempty"`
+	Type  int    `json:"type,omitempty"`
 	Extra string `json:"extra"`
 	// Pretagged: the finding comes back from the detector with its Detectors field already
 	// filled in (a finding object that went through an earlier scan, or a detector that fills
@@ -70,12 +78,47 @@ func genC20(t *rapid.T) c20Case {
 		d := c20Detector{Fail: rapid.IntRange(0, 3).Draw(t, "fail") == 0}
 		nf := rapid.IntRange(0, 3).Draw(t, "n_findings")
 		for j := 0; j < nf; j++ {
+			// advisories of one ID mostly share one body; a third of the findings differ from it in
+			// exactly one field (near-equal bodies are where a comparison can go wrong)
 			f := c20Finding{
 				Pub:   rapid.SampledFrom([]string{"CVE", "CVE", "GHSA"}).Draw(t, "pub"),
 				Ref:   rapid.SampledFrom([]string{"A-1", "A-2", "A-3"}).Draw(t, "ref"),
-				Title: rapid.SampledFrom([]string{"t", "t", "t", "u"}).Draw(t, "title"),
-				Sev:   rapid.SampledFrom([]int{0, 0, 0, 3, 4}).Draw(t, "sev"),
+				Title: "t",
+				Sev:   3,
 				Extra: rapid.SampledFrom([]string{"", "x", "y"}).Draw(t, "extra"),
+			}
+			if f.Ref == "A-3" {
+				f.Sev, f.V3 = 4, 1
+			}
+			if f.Ref == "A-2" && f.Pub == "GHSA" {
+				f.Sev = 0
+			}
+			switch rapid.IntRange(0, 20).Draw(t, "perturb") {
+			case 0:
+				f.Title = "u"
+			case 1:
+				f.Sev = 7 - f.Sev // 3 <-> 4, nil -> 7
+			case 2:
+				f.Sev = 0
+			case 3:
+				f.V2 = 1
+			case 4:
+				// the shared block taken away, or one added where the ID has none
+				if f.V3 != 0 {
+					f.V3 = 0
+				} else {
+					f.V3 = 1
+				}
+			case 5:
+				f.V3 = 2
+			case 6:
+				f.Desc = "d"
+			case 7:
+				f.Rec = "r"
+			case 8:
+				f.Type = 1
+			case 9:
+				f.V2 = 2
 			}
 			f.Pretagged = rapid.IntRange(0, 5).Draw(t, "pretagged") == 0
 			switch rapid.IntRange(0, 14).Draw(t, "broken") {
@@ -99,9 +142,21 @@ func (f c20Finding) build() *detector.Finding {
 	if f.NoAdv {
 		return out
 	}
-	out.Adv = &detector.Advisory{Title: f.Title, Type: detector.TypeVulnerability}
+	out.Adv = &detector.Advisory{Title: f.Title, Type: detector.TypeVulnerability, Description: f.Desc, Recommendation: f.Rec}
+	if f.Type == 1 {
+		out.Adv.Type = detector.TypeCISFinding
+	}
+	cvss := func(k int) *detector.CVSS {
+		switch k {
+		case 1:
+			return &detector.CVSS{BaseScore: 7.5}
+		case 2:
+			return &detector.CVSS{BaseScore: 7.5, TemporalScore: 1}
+		}
+		return nil
+	}
 	if f.Sev > 0 {
-		out.Adv.Sev = &detector.Severity{Severity: detector.SeverityEnum(f.Sev)}
+		out.Adv.Sev = &detector.Severity{Severity: detector.SeverityEnum(f.Sev), CVSSV2: cvss(f.V2), CVSSV3: cvss(f.V3)}
 	}
 	if !f.NoID {
 		out.Adv.ID = &detector.AdvisoryID{Publisher: f.Pub, Reference: f.Ref}
@@ -253,8 +308,8 @@ func propC20(c c20Case) (ev.Outcome, error) {
 	// advisory consistency (model)
 	valid := true
 	type body struct {
-		title string
-		sev   int
+		title, desc, rec string
+		sev, v2, v3, typ int
 	}
 	ids := map[[2]string]body{}
 	nFind := 0
@@ -268,7 +323,10 @@ func propC20(c c20Case) (ev.Outcome, error) {
 				continue
 			}
 			k := [2]string{f.Pub, f.Ref}
-			b := body{f.Title, f.Sev}
+			b := body{f.Title, f.Desc, f.Rec, f.Sev, f.V2, f.V3, f.Type}
+			if f.Sev == 0 {
+				b.v2, b.v3 = 0, 0 // the CVSS blocks live inside the severity
+			}
 			if prev, ok := ids[k]; ok {
 				collision = true
 				if prev != b {
